@@ -61,6 +61,8 @@ def run_case(case, ctx):
 	from gambit.seq import SequenceFile
 	from gambit.sigs.calc import calc_file_signature, calc_signature
 
+	if case['kind'] == 'long_contig':
+		return run_long(case, ctx, np, KmerSpec, SequenceFile, calc_file_signature)
 	k, prefix = case['k'], case['prefix']
 	from vlib.refmodel import kmer as _RK
 	kspec = _RK.spell_spec(KmerSpec, k, prefix, case.get('spec_spelling', 0))
@@ -254,5 +256,55 @@ def gen_case(draw, tier):
 	        'spec_spelling': draw(st.sampled_from([0, 1, 0, 2, 3, 4, 5, 6, 7]))}
 
 
+def run_long(case, ctx, np, KmerSpec, SequenceFile, calc_file_signature):
+	"""A closed-chromosome-sized contig (1.6 M nucleotides) with prefix occurrences straddling power-of-two / power-of-ten offsets:
+	file, reverse-complemented file and gzip file must all give the definitional signature."""
+	lim = 1 if ctx.tier == 'quick' else 20
+	if ctx.cache.get('c06_long', 0) >= lim and not case.get('force'):
+		return {'nontrivial': False, 'classes': ['long_contig_skipped(budget)']}
+	ctx.cache['c06_long'] = ctx.cache.get('c06_long', 0) + 1
+	from vlib import longseq
+	seq, exp, windows = longseq.build(np, case)
+	kspec = KmerSpec(case['k'], case['prefix'])
+	d = ctx.fresh_dir()
+	try:
+		variants = {'plain': seq, 'revcomp': R.ref_revcomp(seq), 'lower_gz': seq.lower()}
+		for name, sq in variants.items():
+			path = os.path.join(d, name + ('.fa.gz' if name.endswith('gz') else '.fasta'))
+			w = case['width']
+			body = b'>chromosome 1\n' + (b'\n'.join(sq[i:i + w] for i in range(0, len(sq), w)) if w else sq) + b'\n' + b'>plasmid\nACGTTGCAAT\n'
+			with open(path, 'wb') as f:
+				f.write(gzip.compress(body, 1) if name.endswith('gz') else body)
+			try:
+				got = calc_file_signature(kspec, SequenceFile(path, 'fasta', 'auto'))
+			except Exception as e:
+				raise Violation('exception', f'calc_file_signature raised {type(e).__name__}: {e} on the {name} file of a {len(seq)}-nucleotide contig', case)
+			extra = R.ref_signature([b'ACGTTGCAAT'], case['k'], case['prefix'].encode())
+			want = sorted(set(exp) | set(extra))
+			if [int(v) for v in got] != want:
+				missing = sorted(set(want) - set(int(v) for v in got))[:4]
+				raise Violation('long_contig', f'{name} file of a {len(seq)}-nucleotide contig: signature has {len(got)} k-mers, definitional signature {len(want)}; missing {missing}', case)
+	finally:
+		import shutil
+		shutil.rmtree(d, ignore_errors=True)
+	return {'nontrivial': len(windows) >= 2, 'classes': ['long_contig', 'contig>1Mi']}
+
+
+@st.composite
+def long_case(draw, tier):
+	from vlib.longseq import SEAMS
+	k = draw(st.sampled_from([5, 8, 11, 16, 21, 32]))
+	prefix = draw(st.sampled_from(['ATGAC', 'AT', 'TA', 'ATG', 'A', 'TTGACA', 'GATC', 'CAG']))
+	tl = len(prefix) + k
+	hits = []
+	for seam in SEAMS:
+		for _ in range(draw(st.integers(1, 2))):
+			shift = draw(st.sampled_from([0, k, -k, tl, -tl]))
+			hits.append([seam + shift, draw(st.integers(-tl - 1, 1)), draw(st.booleans()), draw(st.integers(0, 2 ** 20))])
+	return {'kind': 'long_contig', 'k': k, 'prefix': prefix, 'length': 2 ** 20 + 2 ** 19 + 70000, 'seed': draw(st.integers(0, 2 ** 20)), 'hits': hits,
+	        'width': draw(st.sampled_from([80, 60, None, 70]))}
+
+
 def strategy(tier):
-	return gen_case(tier)
+	rare = st.sampled_from([False] * 100 + [True] + [False] * 100)
+	return rare.flatmap(lambda f: long_case(tier) if f else gen_case(tier))
